@@ -55,6 +55,16 @@ fn expected(entries: &[Entry], a: A, from: SynNoRefUnit, to: SynNoRefUnit) -> Op
     entries.iter().find(|e| e.0 == from && e.1 == to).map(|e| (a * e.2 + e.3, to))
 }
 
+/// a fused multiply-add is an equally faithful evaluation of amount x factor + offset (binary back-end)
+#[cfg(not(feature = "dec"))]
+fn fused_ok(entries: &[Entry], a: A, from: SynNoRefUnit, to: SynNoRefUnit, got: A) -> bool {
+    entries.iter().find(|e| e.0 == from && e.1 == to).map(|e| amt::same(a.mul_add(e.2, e.3), got)).unwrap_or(false)
+}
+#[cfg(feature = "dec")]
+fn fused_ok(_entries: &[Entry], _a: A, _from: SynNoRefUnit, _to: SynNoRefUnit, _got: A) -> bool {
+    false
+}
+
 fn judge_table(entries: &[Entry], got: impl Fn(&SynNoRef, SynNoRefUnit) -> Option<SynNoRef>, b: &Bind<SynNoRef>, rep: &mut Report) {
     rep.inc("tables");
     for (i, &from) in b.units.iter().enumerate() {
@@ -79,7 +89,7 @@ fn judge_table(entries: &[Entry], got: impl Fn(&SynNoRef, SynNoRefUnit) -> Optio
                                 rep.inc("shadowed_entry_cases");
                             }
                         }
-                        gu == wu && amt::same(*ga, *wa)
+                        gu == wu && (amt::same(*ga, *wa) || (i != j && fused_ok(entries, a, from, to, *ga)))
                     }
                     _ => false,
                 };
